@@ -228,9 +228,79 @@ func execUploadSeq(vec J, out *Writer) {
 	out.Put(J{"ev": "upseq", "in": vec, "ctl": ctlName, "bases": bases, "steps": steps})
 }
 
+// execUploadReparse: the control file at ONE path is parsed and copied, then rewritten to list another file, parsed
+// again and copied elsewhere: the second copy is the upload the second text describes
+func execUploadReparse(vec J, out *Writer) {
+	kind := vec["kind"].(string)
+	root, err := os.MkdirTemp("", "verif-reparse-")
+	if err != nil {
+		die("mkdtemp: %v", err)
+	}
+	defer os.RemoveAll(root)
+	dirs := map[string]string{"src": filepath.Join(root, "src"), "a": filepath.Join(root, "a"), "b": filepath.Join(root, "b")}
+	for _, d := range dirs {
+		os.MkdirAll(d, 0755)
+	}
+	originals := map[string]string{}
+	names := map[string]string{"f1": "pkg_1.0.f1.tar.gz", "f2": "pkg_1.0.f2.tar.xz"}
+	for key, n := range names {
+		c := contentOf(key)
+		originals[string(c)] = key
+		os.WriteFile(filepath.Join(dirs["src"], n), c, 0644)
+	}
+	ctlName := map[string]string{"dsc": "pkg_1.0.dsc", "changes": "pkg_1.0_amd64.changes"}[kind]
+	render := func(key string) string {
+		c := contentOf(key)
+		m, s1, s2 := md5.Sum(c), sha1.Sum(c), sha256.Sum256(c)
+		extra := ""
+		head := "Format: 3.0 (quilt)\nSource: pkg\nBinary: pkg\nArchitecture: any\nVersion: 1.0\nMaintainer: A B <a@b.org>\n"
+		if kind == "changes" {
+			extra = "utils optional "
+			head = "Format: 1.8\nDate: Mon, 02 Jan 2006 15:04:05 -0700\nSource: pkg\nBinary: pkg\nArchitecture: source\nVersion: 1.0\nDistribution: unstable\nUrgency: low\nMaintainer: A B <a@b.org>\nChanged-By: A B <a@b.org>\nDescription:\n pkg - x\nChanges:\n pkg (1.0) unstable; urgency=low\n .\n   * " + key + "\n"
+		}
+		return head + fmt.Sprintf("Checksums-Sha1:\n %x %d %s\nChecksums-Sha256:\n %x %d %s\nFiles:\n %x %d %s%s\n", s1, len(c), names[key], s2, len(c), names[key], m, len(c), extra, names[key])
+	}
+	ctlPath := filepath.Join(dirs["src"], ctlName)
+	errs := []interface{}{}
+	panicked := false
+	for i, key := range []string{"f1", "f2"} {
+		text := render(key)
+		originals[text] = "ctl" + key
+		os.WriteFile(ctlPath, []byte(text), 0644)
+		func() {
+			defer func() {
+				if r := recover(); r != nil {
+					panicked = true
+				}
+			}()
+			var h interface{ Copy(string) error }
+			if kind == "dsc" {
+				d, err := control.ParseDscFile(ctlPath)
+				if err != nil {
+					die("reparse ParseDscFile: %v", err)
+				}
+				h = d
+			} else {
+				c, err := control.ParseChangesFile(ctlPath)
+				if err != nil {
+					die("reparse ParseChangesFile: %v", err)
+				}
+				h = c
+			}
+			errs = append(errs, h.Copy(dirs[[]string{"a", "b"}[i]]) != nil)
+		}()
+	}
+	out.Put(J{"ev": "upreparse", "in": vec, "ctl": ctlName, "errs": errs, "panic": panicked,
+		"a": snapshot(dirs["a"], originals), "b": snapshot(dirs["b"], originals)})
+}
+
 func execUpload(vec J, out *Writer) {
 	if vec["k"].(string) == "upseq" {
 		execUploadSeq(vec, out)
+		return
+	}
+	if vec["k"].(string) == "upreparse" {
+		execUploadReparse(vec, out)
 		return
 	}
 	if vec["k"].(string) != "up" {
